@@ -51,6 +51,7 @@ fn block_of(blocks: &[Block], a: u32) -> Option<&Block> {
 }
 
 fn check_addr(blocks: &[Block], a: u32, with_info: bool) -> (Option<String>, Option<(String, String)>) {
+    set_case(14, a as u64, 0, 0);
     let reg = match guarded(|| tail(a)) {
         Err(p) => return (None, Some(("tail:panic".into(), format!("tail({a:#08x}) panicked: {p}")))),
         Ok(r) => r,
